@@ -168,6 +168,17 @@ impl<'a> Outbound<'a> {
         MAX_RETAINED.min(MAX_PENDING_RELEASE) as u16
     }
 
+    /// QoS 1/2 publishes the broker still counts against its Receive Maximum: retained
+    /// PUBLISH packets plus exchanges waiting for PUBCOMP.
+    pub(super) fn inflight_publishes(&self) -> u16 {
+        let retained = self
+            .retained
+            .iter()
+            .filter(|entry| self.buf[entry.offset] >> 4 == 3)
+            .count();
+        (retained + self.pending_release.len()) as u16
+    }
+
     fn used_after_compact(&self) -> usize {
         self.retained.iter().map(|entry| entry.len).sum()
     }
